@@ -50,13 +50,12 @@ theorem react_cont_safe (rc : Nat) (o : Outcome) (m : Mode) (i p : Bool)
     (h : react false rc o = .cont m i p) : safeToResend o = true := by
   cases o <;> simp [react, decide, safeToResend] at h ⊢
 
-/-- one unfolding of `go` on a non-empty script, host picked -/
+/-- one unfolding of `go` -/
 theorem go_unfold (down : Nat → Host → Bool) (script : List Outcome) (mode : Mode) (st : St) :
     go down script mode st =
       if st.done then st else
       match pick down st mode with
       | .noHost => { st with plan := [], host := none, done := true, reply := some .noMoreHosts }
-      | .spin => { st with diverged := true }
       | .host h plan =>
         let n := st.attempts.length
         let st := { st with plan := plan, host := some h, attempts := st.attempts ++ [h] }
@@ -85,14 +84,12 @@ theorem go_attempts_safe (down : Nat → Host → Bool) (script : List Outcome) 
     · exact ⟨[], by simp, by simp⟩
     · split
       · exact ⟨[], by simp, by simp⟩
-      · exact ⟨[], by simp, by simp⟩
       · exact ⟨[_], rfl, by simp⟩
   | cons o rest ih =>
     rw [go_unfold]
     split
     · exact ⟨[], by simp, by simp⟩
     · split
-      · exact ⟨[], by simp, by simp⟩
       · exact ⟨[], by simp, by simp⟩
       · rename_i h plan _
         simp only
@@ -114,11 +111,6 @@ theorem go_attempts_safe (down : Nat → Host → Bool) (script : List Outcome) 
               obtain ⟨o', ho', hs'⟩ := hk k (by omega)
               exact ⟨o', by simpa using ho', hs'⟩
 
-end CqlVerif.Retry
-
-namespace CqlVerif.Retry
-open CqlVerif.Gen.RetryPolicy CqlVerif.RetrySpec
-
 theorem countReprepOk_le (o : Outcome) (rest : List Outcome) : countReprepOk rest ≤ countReprepOk (o :: rest) := by
   cases o <;> try simp [countReprepOk]
   case unprepared c r => cases c <;> cases r <;> simp [countReprepOk]
@@ -128,7 +120,6 @@ count 0) or the re-execution after a successful re-prepare -/
 theorem react_same (idem : Bool) (rc : Nat) (o : Outcome) (rest : List Outcome) (inc prep : Bool)
     (h : react idem rc o = .cont .same inc prep) :
     (inc = true ∧ rc = 0) ∨ (inc = false ∧ countReprepOk (o :: rest) = countReprepOk rest + 1) := by
-  rw [show react idem rc o = react idem rc o from rfl] at h
   cases o
   case unprepared c r =>
     cases c <;> cases r <;> cases idem <;> simp [react, decide] at h <;> simp [h, countReprepOk]
@@ -162,27 +153,31 @@ theorem react_same (idem : Bool) (rc : Nat) (o : Outcome) (rest : List Outcome) 
   case connLost => cases idem <;> simp [react] at h
   case otherErr => simp [react, decide] at h
 
-theorem pick_next_len (down : Nat → Host → Bool) (st : St) (h : Host) (plan : List Host)
-    (e : pick down st .next = .host h plan) : plan.length + 1 ≤ st.plan.length := by
-  simp only [pick] at e
-  have := skipDown_length (down st.attempts.length) st.plan
+theorem pickNext_len (down : Host → Bool) (l : List Host) (h : Host) (plan : List Host)
+    (e : pickNext down l = .host h plan) : plan.length + 1 ≤ l.length ∧ down h = false := by
+  simp only [pickNext] at e
+  have := skipDown_length down l
   split at e
   · simp at e
   · rename_i h' rest heq
     simp only [Pick.host.injEq] at e
     obtain ⟨rfl, rfl⟩ := e
-    rw [heq] at this; simpa using this
+    rw [heq] at this
+    exact ⟨by simpa using this, (skipDown_mem _ _ _ _ heq).2.1⟩
 
+theorem pick_next_len (down : Nat → Host → Bool) (st : St) (h : Host) (plan : List Host)
+    (e : pick down st .next = .host h plan) : plan.length + 1 ≤ st.plan.length :=
+  (pickNext_len _ _ _ _ e).1
+
+/-- same-host pick: either the current host (plan untouched) or, when that send fails, the next -/
 theorem pick_same_plan (down : Nat → Host → Bool) (st : St) (h : Host) (plan : List Host)
-    (e : pick down st .same = .host h plan) : plan = st.plan ∧ st.host = some h := by
+    (e : pick down st .same = .host h plan) : plan.length ≤ st.plan.length := by
   simp only [pick] at e
   split at e
   · simp at e
   · split at e
-    · simp at e
-    · simp only [Pick.host.injEq] at e
-      rename_i h' heq _
-      exact ⟨e.2.symm, by rw [heq, e.1]⟩
+    · have := (pickNext_len _ _ _ _ e).1; omega
+    · simp only [Pick.host.injEq] at e; rw [← e.2]; exact Nat.le_refl _
 
 /-- C05 attempts bound, in its inductive form -/
 theorem go_attempts_bounded (down : Nat → Host → Bool) (script : List Outcome) (mode : Mode) (st : St) :
@@ -196,23 +191,21 @@ theorem go_attempts_bounded (down : Nat → Host → Bool) (script : List Outcom
     · omega
     · split
       · simp; omega
-      · simp; omega
       · rename_i h plan hp
         cases mode
         · have := pick_next_len _ _ _ _ hp; simp; omega
-        · have := (pick_same_plan _ _ _ _ hp).1; simp; omega
+        · have := pick_same_plan _ _ _ _ hp; simp; omega
   | cons o rest ih =>
     rw [go_unfold]
     split
     · omega
     · split
       · simp; omega
-      · simp; omega
       · rename_i h plan hp
         have hlen : plan.length + (if mode = .next then 1 else 0) ≤ st.plan.length := by
           cases mode
           · have := pick_next_len _ _ _ _ hp; simp; omega
-          · have := (pick_same_plan _ _ _ _ hp).1; simp [this]
+          · have := pick_same_plan _ _ _ _ hp; simp [this]
         have hc := countReprepOk_le o rest
         simp only
         split
@@ -226,23 +219,16 @@ theorem go_attempts_bounded (down : Nat → Host → Bool) (script : List Outcom
           simp only [List.length_append, List.length_cons, List.length_nil] at this
           refine Nat.le_trans this ?_
           cases m
-          · -- next host
-            have hrc : (if (if inc = true then st.retryCount + 1 else st.retryCount) = 0 then 1 else 0) ≤ (if st.retryCount = 0 then 1 else 0) := by
+          · have hrc : (if (if inc = true then st.retryCount + 1 else st.retryCount) = 0 then 1 else 0) ≤ (if st.retryCount = 0 then 1 else 0) := by
               cases inc <;> simp
             cases mode <;> simp at hlen ⊢ <;> omega
-          · -- same host
-            rcases react_same _ _ _ rest _ _ hr with ⟨hinc, hrc0⟩ | ⟨hinc, hcnt⟩
+          · rcases react_same _ _ _ rest _ _ hr with ⟨hinc, hrc0⟩ | ⟨hinc, hcnt⟩
             · subst hinc
               simp only [hrc0, ↓reduceIte]
               cases mode <;> simp at hlen ⊢ <;> omega
             · subst hinc
               simp only [Bool.false_eq_true, ↓reduceIte]
               cases mode <;> simp at hlen ⊢ <;> omega
-
-end CqlVerif.Retry
-
-namespace CqlVerif.Retry
-open CqlVerif.Gen.RetryPolicy CqlVerif.RetrySpec
 
 /-- outcomes after which an idempotent request moves on to the next host, whatever its retry count -/
 def nextHostClass : Outcome → Bool
@@ -295,13 +281,13 @@ theorem go_failover_success (down : Host → Bool) (pre rest : List Outcome) (st
     obtain ⟨h, plan, hs, _⟩ := skipDown_up down st.plan (by simpa using hup)
     simp only [List.nil_append, List.length_nil, Nat.add_zero]
     rw [go_unfold]
-    simp [hd, pick, hs, react]
+    simp [hd, pick, pickNext, hs, react]
   | cons o pre ih =>
     obtain ⟨h, plan, hs, hcnt⟩ := skipDown_up down st.plan (by simp at hup; omega)
     obtain ⟨inc, prep, hr⟩ := react_nextHostClass st.retryCount o (hpre o (by simp))
     simp only [List.cons_append]
     rw [go_unfold]
-    simp only [hd, Bool.false_eq_true, ↓reduceIte, pick, hs, hi, hr]
+    simp only [hd, Bool.false_eq_true, ↓reduceIte, pick, pickNext, hs, hi, hr]
     have := ih
       { st with plan := plan, host := some h, attempts := st.attempts ++ [h], retryCount := (if inc then st.retryCount + 1 else st.retryCount), prepares := (if prep then st.prepares ++ [h] else st.prepares) }
       hi hd (fun o ho => hpre o (by simp [ho])) (by simp at hup ⊢; omega)
@@ -310,67 +296,96 @@ theorem go_failover_success (down : Host → Bool) (pre rest : List Outcome) (st
     simp only [hi, hd, Nat.zero_add] at this
     exact this
 
-/-- `executeInternal(false)` never spins when a host that has just answered is still usable for
-the immediately following attempt -/
-theorem go_no_spin (down : Nat → Host → Bool) (script : List Outcome) (mode : Mode) (st : St)
-    (hstable : ∀ n h, down n h = false → down (n + 1) h = false)
-    (hcur : mode = .same → ∀ h, st.host = some h → down st.attempts.length h = false)
-    (hdv : st.diverged = false) :
-    (go down script mode st).diverged = false := by
+def noSilent (script : List Outcome) : Bool := script.all (· != .silent)
+
+/-- C01/C05 termination: a request whose attempts are all answered (or dropped) is finished after
+at most `plan + 1 (+ re-executions)` outcomes — it cannot stay unanswered. -/
+theorem go_terminates (down : Nat → Host → Bool) (script : List Outcome) (mode : Mode) (st : St)
+    (hns : noSilent script = true)
+    (hlen : st.plan.length + (if st.retryCount = 0 then 1 else 0) + countReprepOk script
+        + (if mode = .same then 1 else 0) ≤ script.length) :
+    (go down script mode st).done = true := by
   induction script generalizing mode st with
   | nil =>
     rw [go_unfold]
     split
-    · exact hdv
+    · assumption
     · split
-      · exact hdv
-      · rename_i hp
+      · rfl
+      · rename_i h plan hp
         exfalso
         cases mode
-        · simp only [pick] at hp; split at hp <;> simp at hp
-        · simp only [pick] at hp
-          split at hp
-          · simp at hp
-          · rename_i h heq
-            rw [hcur rfl h heq] at hp; simp at hp
-      · exact hdv
+        · have := pick_next_len _ _ _ _ hp
+          simp only [countReprepOk, List.length_nil, reduceCtorEq, ↓reduceIte] at hlen
+          omega
+        · simp only [countReprepOk, List.length_nil, ↓reduceIte] at hlen
+          omega
   | cons o rest ih =>
     rw [go_unfold]
     split
-    · exact hdv
+    · assumption
     · split
-      · exact hdv
-      · rename_i hp
-        exfalso
-        cases mode
-        · simp only [pick] at hp; split at hp <;> simp at hp
-        · simp only [pick] at hp
-          split at hp
-          · simp at hp
-          · rename_i h heq
-            rw [hcur rfl h heq] at hp; simp at hp
+      · rfl
       · rename_i h plan hp
-        have hup : down st.attempts.length h = false := by
+        have hpl : plan.length + (if mode = .next then 1 else 0) ≤ st.plan.length := by
           cases mode
-          · simp only [pick] at hp
-            split at hp
-            · simp at hp
-            · rename_i h' rest' heq
-              simp only [Pick.host.injEq] at hp
-              have := (skipDown_mem _ _ _ _ heq).2.1
-              rw [← hp.1]; exact this
-          · have := (pick_same_plan _ _ _ _ hp).2
-            exact hcur rfl h this
+          · have := pick_next_len _ _ _ _ hp; simp; omega
+          · have := pick_same_plan _ _ _ _ hp; simp [this]
+        have hc := countReprepOk_le o rest
+        have hns' : noSilent rest = true := by
+          simp only [noSilent, List.all_cons, Bool.and_eq_true] at hns; exact hns.2
+        have hno : o ≠ .silent := by
+          simp only [noSilent, List.all_cons, Bool.and_eq_true, bne_iff_ne, ne_eq] at hns; exact hns.1
         simp only
         split
-        · exact hdv
-        · exact hdv
+        · rename_i hr
+          exfalso
+          cases o <;> simp [react] at hr hno
+          case connLost => split at hr <;> simp at hr
+          case unprepared c r => cases c <;> cases r <;> simp [react] at hr <;> (try split at hr <;> simp at hr)
+          all_goals (split at hr <;> simp at hr)
+        · rfl
+        · rename_i m inc prep hr
+          apply ih m _ hns'
+          simp only [List.length_cons] at hlen
+          cases m
+          · have hrc : (if (if inc = true then st.retryCount + 1 else st.retryCount) = 0 then 1 else 0) ≤ (if st.retryCount = 0 then 1 else 0) := by
+              cases inc <;> simp
+            cases mode <;> simp at hpl hlen ⊢ <;> omega
+          · rcases react_same _ _ _ rest _ _ hr with ⟨hinc, hrc0⟩ | ⟨hinc, hcnt⟩
+            · subst hinc
+              simp only [hrc0, ↓reduceIte] at hlen ⊢
+              cases mode <;> simp at hpl hlen ⊢ <;> omega
+            · subst hinc
+              simp only [Bool.false_eq_true, ↓reduceIte]
+              cases mode <;> simp at hpl hlen ⊢ <;> omega
+
+/-- a finished request has been given its reply (done is only ever set together with a reply) -/
+theorem done_has_reply (down : Nat → Host → Bool) (script : List Outcome) (mode : Mode) (st : St)
+    (h0 : st.done = true → st.reply.isSome = true) :
+    (go down script mode st).done = true → (go down script mode st).reply.isSome = true := by
+  induction script generalizing mode st with
+  | nil =>
+    rw [go_unfold]
+    cases hdn : st.done with
+    | true => simp only [↓reduceIte]; intro _; exact h0 hdn
+    | false =>
+      simp only [Bool.false_eq_true, ↓reduceIte]
+      split
+      · intro _; rfl
+      · intro hd; simp [hdn] at hd
+  | cons o rest ih =>
+    rw [go_unfold]
+    cases hdn : st.done with
+    | true => simp only [↓reduceIte]; intro _; exact h0 hdn
+    | false =>
+      simp only [Bool.false_eq_true, ↓reduceIte]
+      split
+      · intro _; rfl
+      · split
+        · intro hd; simp at hd
+        · intro _; rfl
         · apply ih
-          · intro _ h' hh'
-            simp only [Option.some.injEq] at hh'
-            subst hh'
-            simp only [List.length_append, List.length_cons, List.length_nil]
-            exact hstable _ _ hup
-          · exact hdv
+          intro hd; simp at hd
 
 end CqlVerif.Retry
